@@ -173,6 +173,8 @@ def pixel_region_spec(rng, cls=None, size=None, center=None, include=None, angle
         w, h = L, L / asp
     else:
         w, h = L / asp, L
+    if rng.random() < 0.08:
+        w = h = L                 # exactly equal axes: a square / a circular ellipse (rotation still matters for the square)
     c = S.pix(cx, cy)
     if cls == 'CirclePixelRegion':
         if isinstance(cx, int) and L >= 4 and rng.random() < 0.5:
@@ -217,6 +219,17 @@ def pixel_region_spec(rng, cls=None, size=None, center=None, include=None, angle
     raise ValueError(cls)
 
 
+def _num(v):
+    return v['v'] if isinstance(v, dict) else v
+
+
+def _half_size(spec):
+    """half of the largest size parameter of a leaf spec (0 if it has none)."""
+    p = spec['p']
+    vals = [_num(p[k]) * (1.0 if 'radius' in k else 0.5) for k in p if k in ('radius', 'width', 'height') or k.startswith('outer_')]
+    return float(max(vals)) if vals else 0.0
+
+
 def compound_spec(rng, depth, leaf, include=None):
     """Random expression tree over leaf() specs with and/or/xor."""
     if depth <= 0 or rng.random() < 0.25:
@@ -232,6 +245,24 @@ def compound_spec(rng, depth, leaf, include=None):
         # an operand combined with (an equal copy of) itself: A ^ A is empty, A | A and A & A are A
         import copy
         r2 = copy.deepcopy(r1)
+    elif 0.2 <= k < 0.3 and 'center' in r1['p'] and 'center' in r2['p'] and _half_size(r1) and _half_size(r2):
+        # the box of one operand inside (a corner of) the box of the other although the regions are not nested: a small shape
+        # in the empty corner of the other's box, or in the hole of an annulus
+        import copy
+        h1, h2 = _half_size(r1), _half_size(r2)
+        r2 = copy.deepcopy(r2)
+        f = 0.1 * h1 / h2
+        for key, v in list(r2['p'].items()):
+            if key in ('radius', 'width', 'height') or key.startswith(('inner_', 'outer_')):
+                r2['p'][key] = (dict(v, v=(max(1, int(v['v'] * f)) if 'int' in v['np'] else v['v'] * f)) if isinstance(v, dict) else
+                                (max(1, int(v * f)) if isinstance(v, int) else v * f))
+        c1 = r1['p']['center']
+        if not isinstance(c1['x'], dict):
+            place = rng.choice(['corner', 'corner', 'centre'])
+            d = 0.82 * h1 if place == 'corner' else 0.0
+            r2['p']['center'] = S.pix(float(c1['x']) + rng.choice([-1, 1]) * d, float(c1['y']) + rng.choice([-1, 1]) * d)
+        if rng.random() < 0.5:
+            r1, r2 = r2, r1
     elif k < 0.2 and 'center' in r1['p'] and 'center' in r2['p']:
         # concentric operands, in either order (hole first or outline first), also crossed shapes
         import copy
